@@ -90,7 +90,11 @@ def _layout_case(case, rng):
     case.count("layouts")
     for k in ("table_products", "table_mixtures", "table_probs_checked", "independent_products"):
         case.count(k, 0)
-    gg = case.call("TabularGridGame", TabularGridGame, s, fence_success_prob=fprob, collision_prob=cprob)
+    from mon import defaults as Dflt
+    gkw, _om = Dflt.rely_on_defaults(case, rng, "TabularGridGame", dict(fence_success_prob=fprob, collision_prob=cprob))
+    gg = case.call("TabularGridGame", TabularGridGame, s, **gkw)
+    if gg is not case.FAIL:
+        Dflt.in_force(case, "TabularGridGame", gg, passed=gkw)
     if gg is case.FAIL:
         return
     # layout facts in msdm's coordinates
